@@ -56,6 +56,38 @@ theorem typeHint_carries (S : Schema) (f : Field) (h : (typeHint S f).isSome) : 
   unfold typeHint at h
   cases hk : f.kind <;> simp_all [FK.carries]
 
+/-- `serialize` writes one `buffer += …` statement per own member, in layout order, each under its own condition line when it
+    has one: the body has exactly one line per own member plus one per conditional own member -/
+theorem serialize_lines_cover_own_members (S : Schema) (d : StructDef) :
+    (serializeFieldLines S d).length = (ownFields d).length + ((ownFields d).filter (fun f => (conditionLine S d f).isSome)).length := by
+  unfold serializeFieldLines
+  generalize ownFields d = fs
+  induction fs with
+  | nil => rfl
+  | cons f fs ih =>
+    simp only [List.flatMap_cons, List.length_append, List.length_cons, ih, List.filter_cons]
+    cases h : conditionLine S d f with
+    | none => simp [guarded]; omega
+    | some c => simp [guarded]; omega
+
+/-- the `size` property mirrors `serialize` line for line (same members, same conditions) -/
+theorem size_lines_match_serialize_lines (S : Schema) (d : StructDef) :
+    (sizeBody S d).length = (serializeBody S d).length ∨ d.abstract = true := by
+  by_cases ha : d.abstract = true
+  · exact Or.inr ha
+  · left
+    have hfl : ∀ fs : List Field,
+        (fs.flatMap fun f => guarded (conditionLine S d f) ("size += " ++ sizeExpr f)).length =
+        (fs.flatMap fun f => guarded (conditionLine S d f) ("buffer += " ++ storeExpr d f)).length := by
+      intro fs
+      induction fs with
+      | nil => rfl
+      | cons f fs ih =>
+        simp only [List.flatMap_cons, List.length_append, ih]
+        cases conditionLine S d f <;> simp [guarded]
+    simp only [sizeBody, serializeBody, serializeFieldLines, ha, List.length_append, hfl]
+    cases d.base.isSome <;> simp
+
 example : emissionPlan [("A", .int 1 false), ("B", .struct { fields := [], abstract := true }), ("C", .struct { fields := [] })]
     = ["A", "B", "C", "BFactory"] := by decide
 
